@@ -345,7 +345,8 @@ func (g *G) object(depth int, self string) *m.Type {
 func (g *G) attr(depth int, self string) *m.Attr {
 	t := g.t
 	a := &m.Attr{Type: g.typ(depth, self)}
-	if g.p.Validations && rapid.IntRange(0, 2).Draw(t, "hasval") == 0 {
+	if g.p.Validations && a.Type.Kind != m.User && rapid.IntRange(0, 2).Draw(t, "hasval") == 0 {
+		// (a user type carries its own validations; adding use-site ones could contradict them)
 		a.V = g.validation(a, depth)
 	}
 	if g.p.Defaults && rapid.IntRange(0, 4).Draw(t, "hasdefault") == 0 {
@@ -617,6 +618,9 @@ func (g *G) validation(a *m.Attr, depth int) *m.Validation {
 	case k == m.Array || k == m.Map:
 		lo := rapid.IntRange(0, 3).Draw(t, "aminlen")
 		hi := lo + rapid.IntRange(0, 4).Draw(t, "alenspan")
+		if hi == 0 {
+			hi = 1 // a collection that can only be empty cannot be told from an absent one in a query or header
+		}
 		switch rapid.IntRange(0, 2).Draw(t, "alenkind") {
 		case 0:
 			v.MinLen = ip(lo)
